@@ -27,6 +27,8 @@ pub struct Fx {
     pub adapter_a: ExternalActionAdapterIdV1,
     pub adapter_b: ExternalActionAdapterIdV1,
     pub adapter_x: ExternalActionAdapterIdV1,
+    /// memo of uninterrupted runs keyed by their (committed) operation sequence
+    pub pure_cache: std::sync::RwLock<std::collections::HashMap<String, std::sync::Arc<crate::worldx::PureSnap>>>,
 }
 
 fn mk_request(op: &str, label: &str) -> ExternalActionRequestV1 {
@@ -78,6 +80,7 @@ impl Fx {
             adapter_a,
             adapter_b,
             adapter_x,
+            pure_cache: Default::default(),
         }
     }
 }
